@@ -357,6 +357,10 @@ def finish(ctx, tally, level_text_extra=None, samples=None, traces=0, assumption
         devs = k.get("deviations") or [k.get("deviation")]
         if any(d in tally.known_hits for d in devs):
             print("KNOWN-FINDING: property=%s %s [%s]" % (pid, k.get("what", ""), k.get("id", "")), flush=True)
+        else:
+            # listed, but this run's sample did not reproduce it (the line is still printed: the finding stands until repaired)
+            print("KNOWN-FINDING: property=%s %s [%s] (not reproduced by this run's sample)" % (pid, k.get("what", ""), k.get("id", "")),
+                  flush=True)
     listed = set()
     for k in known:
         for d in (k.get("deviations") or [k.get("deviation")]):
